@@ -70,42 +70,54 @@ theorem default_enabled_and_deadline (t0 now : Int) (task : Option Nat) :
   refine ⟨by decide, ?_⟩
   exact silent_action_expired_iff defaultConfig t0 now task
 
-/-- The full sentence is FALSE of the code (candidate defect R, confirmed): an expired action
-    execution without a task (ad-hoc `start_action(..., save_result=True)`) is skipped by every
-    pass (`get_task_execution(None)` raises DBEntityNotFoundError → `continue`), so it stays RUNNING
-    forever. -/
-theorem expired_action_failed_full_fails :
-    ¬ (∀ (cfg : Config) (w : World) (i : Nat) (a : Action), w.actions[i]? = some a →
-        expired cfg w.now a = true →
-        ∃ a', (checkerPass cfg w).actions[i]? = some a' ∧ a'.state = .ERROR) := by
-  intro h
-  have := h ⟨1, 1, 0, 0, 20, 5⟩
-    { now := 100, tasks := [],
-      actions := [{ state := .RUNNING, isSync := true, lastHeartbeat := 0, hasParent := false,
-                    task := none, updatedAt := 0 }] } 0 _ rfl (by decide)
-  revert this
-  decide
+/-- A pass of `handle_expired_actions` never lets an exception of one action escape (with the
+    catch clauses the translator found in the source): no action poisons the pass.
+    (Before 2fdf7f9f an expired action with a deleted definition made every pass raise and roll
+    back; witness kept as a regression in the `heartbeat` stream, flavour `poison`.) -/
+theorem pass_never_aborts (cfg : Config) (w : World) : passAborts cfg w = false := by
+  cases hx : passAborts cfg w with
+  | false => rfl
+  | true =>
+    exfalso
+    simp only [passAborts, List.any_eq_true] at hx
+    obtain ⟨⟨b, j⟩, _, hb⟩ := hx
+    simp [poison, checkerSkipsMissingParent, checkerCatchesCompleteErrors] at hb
 
-/-- …and it holds for every expired action whose task and workflow exist and whose definition is
-    known, provided no action of the batch poisons the pass (see `broken_action_…` below): it is
-    failed (ERROR, result accepted) by the next pass, through the same `accept` the engine applies
-    to an executor's error result. -/
-theorem expired_action_failed_partial (cfg : Config) (w : World) (i : Nat) (a : Action)
-    (ha : w.actions[i]? = some a) (he : expired cfg w.now a = true)
-    (hp : a.hasParent = true) (hd : a.defKnown = true) (hab : passAborts cfg w = false) :
+/-- The sentence at full strength, for every action the pass can process (`broken a = false`: its
+    parent rows, if it has a task, exist and its definition is known): an expired action is failed
+    (ERROR, result accepted) by the very next pass, whatever else is in the batch, through the same
+    `accept` the engine applies to an executor's error result. -/
+theorem expired_action_failed (cfg : Config) (w : World) (i : Nat) (a : Action)
+    (ha : w.actions[i]? = some a) (he : expired cfg w.now a = true) (hb : broken a = false) :
     (checkerPass cfg w).actions[i]? = some (accept w.now a .error) ∧
     (accept w.now a .error).state = .ERROR ∧ (accept w.now a .error).accepted = true := by
   rw [checkerPass_action cfg w i a ha]
   have hs : selected cfg w i a = true := by simp [selected, he, queryLimitApplied]
-  simp [hab, hs, processable, hp, hd, accept, resState]
+  simp [pass_never_aborts, hs, processable, hb, accept, resState]
 
-/-- non-vacuity of `expired_action_failed_partial` -/
-example : ∃ (cfg : Config) (w : World) (i : Nat) (a : Action), w.actions[i]? = some a ∧
-    expired cfg w.now a = true ∧ a.hasParent = true ∧ a.defKnown = true ∧ passAborts cfg w = false :=
-  ⟨⟨2, 5, 7, 0, 20, 5⟩,
-   { now := 18, tasks := [{ state := .RUNNING, updatedAt := 0 }],
-     actions := [{ state := .RUNNING, isSync := true, lastHeartbeat := 7, hasParent := true,
-                   task := some 0, updatedAt := 0 }] }, 0, _, rfl, by decide, rfl, rfl, by decide⟩
+/-- In particular (DESIGN 9-R, fixed by 2fdf7f9f): an expired action execution WITHOUT a task
+    (ad-hoc `start_action(..., save_result=True)` whose executor died) is failed too — the task
+    lookup is only made when `task_execution_id` is set. -/
+theorem taskless_action_failed (cfg : Config) (w : World) (i : Nat) (a : Action)
+    (ha : w.actions[i]? = some a) (he : expired cfg w.now a = true)
+    (ht : a.task = none) (hd : a.defKnown = true) :
+    ∃ a', (checkerPass cfg w).actions[i]? = some a' ∧ a'.state = .ERROR ∧ a'.accepted = true := by
+  have hb : broken a = false := by simp [broken, lookupFails, checkerGuardsTaskLookup, ht, hd]
+  exact ⟨_, expired_action_failed cfg w i a ha he hb⟩
+
+/-- non-vacuity of `expired_action_failed` / `taskless_action_failed`: an action with a task and one
+    without, both expired -/
+example :
+    let cfg : Config := ⟨2, 5, 7, 0, 20, 5⟩
+    let w : World := { now := 18, tasks := [{ state := .RUNNING, updatedAt := 0 }],
+                       actions := [{ state := .RUNNING, isSync := true, lastHeartbeat := 7, hasParent := true,
+                                        task := some 0, updatedAt := 0 },
+                                   { state := .RUNNING, isSync := true, lastHeartbeat := 7, hasParent := false,
+                                        task := none, updatedAt := 0 }] }
+    (w.actions.map (fun a => (expired cfg w.now a, broken a)) = [(true, false), (true, false)]) ∧
+    ((checkerPass cfg w).actions.map (fun a => (a.state, a.accepted)) = [(.ERROR, true), (.ERROR, true)]) := by
+  decide
+
 
 /-! ## "its task and workflow then follow their normal error handling" -/
 
@@ -116,10 +128,12 @@ example : ∃ (cfg : Config) (w : World) (i : Nat) (a : Action), w.actions[i]? =
 theorem expiry_is_error_result (cfg : Config) (w : World) (i t : Nat) (a : Action) (tk : Task)
     (ha : w.actions[i]? = some a) (ht : w.tasks[t]? = some tk) (hat : a.task = some t)
     (he : expired cfg w.now a = true) (hp : a.hasParent = true) (hd : a.defKnown = true)
-    (hab : passAborts cfg w = false) (hplain : tk.withItems = false) :
+    (hplain : tk.withItems = false) :
     (checkerPass cfg w).actions[i]? = (resultStep w i .error).actions[i]? ∧
     ((checkerPass cfg w).tasks[t]?.map (·.state)) = ((resultStep w i .error).tasks[t]?.map (·.state)) := by
   have hwf : a.isWf = false := ((expired_iff cfg w.now a).1 he).1
+  have hab : passAborts cfg w = false := pass_never_aborts cfg w
+  have hbr : broken a = false := by simp [broken, lookupFails, hp, hd]
   have hnc : isCompleted a.state = false := expired_not_completed cfg w.now a he
   have hrr : (resultReject w i).isSome = false := by
     simp [resultReject, ha, hwf, hd, hnc]
@@ -127,7 +141,7 @@ theorem expiry_is_error_result (cfg : Config) (w : World) (i t : Nat) (a : Actio
   have hlt : i < w.actions.length := by
     rcases List.getElem?_eq_some_iff.1 ha with ⟨h, _⟩; exact h
   constructor
-  · rw [(expired_action_failed_partial cfg w i a ha he hp hd hab).1]
+  · rw [(expired_action_failed cfg w i a ha he hbr).1]
     simp only [resultStep, ha, hrr, Bool.false_eq_true, if_false]
     rw [List.getElem?_set_self hlt]
   · have hany : (w.actions.zipIdx.any fun (x : Action × Nat) =>
@@ -135,7 +149,7 @@ theorem expiry_is_error_result (cfg : Config) (w : World) (i t : Nat) (a : Actio
       rw [List.any_eq_true]
       refine ⟨(a, i), ?_, ?_⟩
       · rw [List.mem_zipIdx_iff_getElem?]; simpa using ha
-      · simp [hs, processable, hp, hd, hat]
+      · simp [hs, processable, hbr, hat]
     simp only [checkerPass, hab, Bool.false_eq_true, if_false, List.getElem?_mapIdx, ht, Option.map_some,
       hany, if_true, resultStep, ha, hrr, hat, beq_self_eq_true]
     simp [scheduleHandling, hplain, handleTask, finalState, accept, resState]
@@ -154,12 +168,11 @@ theorem late_result_inert (cfg : Config) (w : World) (i : Nat) (r : Res) (a : Ac
     history (ticks, heartbeats, passes, other results, integrity checks, direct DB updates …) a
     result for it is rejected and changes nothing. -/
 theorem expiry_then_result_rejected (cfg : Config) (w : World) (i : Nat) (a : Action) (evs : List Event) (r : Res)
-    (ha : w.actions[i]? = some a) (he : expired cfg w.now a = true)
-    (hp : a.hasParent = true) (hd : a.defKnown = true) (hab : passAborts cfg w = false) :
+    (ha : w.actions[i]? = some a) (he : expired cfg w.now a = true) (hb : broken a = false) :
     let w' := run cfg (checkerPass cfg w) evs
     step cfg w' (.result i r) = w' ∧ raises cfg w' (.result i r) = true := by
   intro w'
-  have h1 := (expired_action_failed_partial cfg w i a ha he hp hd hab).1
+  have h1 := (expired_action_failed cfg w i a ha he hb).1
   have hd0 : DoneAt (checkerPass cfg w) i := ⟨_, h1, by simp [accept, resState_completed]⟩
   have hd1 : DoneAt w' i := run_done cfg evs _ i hd0
   have := result_done_inert w' i r hd1
@@ -287,63 +300,37 @@ example : enabled ⟨0, 5, 7, 0, 20, 5⟩ = false ∧ enabled ⟨2, 0, 7, 0, 20,
 
 /-! ## "one broken action does not prevent the others in the batch from being processed" -/
 
-/-- FALSE of the code in full (new finding): the per-action handler only catches
-    `DBEntityNotFoundError` of the task / workflow lookups; an expired action whose definition can
-    no longer be found (`_build_action` raises InvalidActionException outside the `try`) lets the
-    exception escape, the transaction of the whole pass is rolled back, and — since the same batch is
-    selected again — no other expired action is ever failed. -/
-theorem broken_action_does_not_block_batch_full_fails :
-    ¬ (∀ (cfg : Config) (w : World) (i : Nat) (a : Action), w.actions[i]? = some a →
-        expired cfg w.now a = true → a.hasParent = true → a.defKnown = true →
-        (checkerPass cfg w).actions[i]? = some (accept w.now a .error)) := by
-  intro h
-  have := h ⟨1, 1, 0, 0, 20, 5⟩
-    { now := 100, tasks := [{ state := .RUNNING, updatedAt := 0 }, { state := .RUNNING, updatedAt := 0 }],
-      actions := [{ state := .RUNNING, isSync := true, lastHeartbeat := 0, hasParent := true, defKnown := false,
-                    task := some 0, updatedAt := 0 },
-                  { state := .RUNNING, isSync := true, lastHeartbeat := 0, hasParent := true,
-                    task := some 1, updatedAt := 0 }] } 1 _ rfl (by decide) rfl rfl
-  revert this
-  decide
+/-- Full strength (true since 2fdf7f9f): whatever broken actions the batch contains — parent rows
+    gone, definition deleted — every other expired action of the batch is failed by the same pass:
+    there is no hypothesis on the rest of the world. -/
+theorem broken_action_does_not_block_batch (cfg : Config) (w : World) (i j : Nat) (a b : Action)
+    (_hb : w.actions[j]? = some b) (_hbe : expired cfg w.now b = true) (_hbroken : broken b = true)
+    (ha : w.actions[i]? = some a) (he : expired cfg w.now a = true) (hok : broken a = false) :
+    (checkerPass cfg w).actions[i]? = some (accept w.now a .error) :=
+  (expired_action_failed cfg w i a ha he hok).1
 
-/-- What does hold: an action that is broken because its task or workflow cannot be found is
-    skipped, and every healthy expired action of the batch is still failed — whatever else is in
-    the batch, as long as no action with an unknown definition is. -/
-theorem broken_action_does_not_block_batch_partial (cfg : Config) (w : World)
-    (hnp : ∀ b ∈ w.actions, expired cfg w.now b = true → b.hasParent = true → b.defKnown = true)
-    (i : Nat) (a : Action) (ha : w.actions[i]? = some a)
-    (he : expired cfg w.now a = true) (hp : a.hasParent = true) :
-    (checkerPass cfg w).actions[i]? = some (accept w.now a .error) := by
-  have hab : passAborts cfg w = false := by
-    cases hx : passAborts cfg w with
-    | false => rfl
-    | true =>
-      exfalso
-      simp only [passAborts, List.any_eq_true] at hx
-      obtain ⟨⟨b, j⟩, hm, hb⟩ := hx
-      have hbm : b ∈ w.actions := by
-        rw [List.mem_zipIdx_iff_getElem?] at hm
-        exact List.mem_of_getElem? hm
-      simp only [Bool.and_eq_true] at hb
-      have hbe := selected_expired cfg w j b hb.1
-      have hpo := hb.2
-      simp only [poison, checkerSkipsMissingParent, checkerCatchesCompleteErrors, Bool.not_true,
-        Bool.and_false, Bool.false_or, Bool.not_false, Bool.and_true, Bool.and_eq_true,
-        Bool.not_eq_true'] at hpo
-      have := hnp b hbm hbe hpo.1
-      rw [this] at hpo
-      cases hpo.2
-  exact (expired_action_failed_partial cfg w i a ha he hp (hnp a (List.mem_of_getElem? ha) he hp) hab).1
+/-- What "broken" costs the broken action itself: it is skipped (left exactly as it is) by the pass,
+    so it is selected and skipped again by every later pass. -/
+theorem broken_action_skipped (cfg : Config) (w : World) (j : Nat) (b : Action)
+    (hb : w.actions[j]? = some b) (hbroken : broken b = true) :
+    (checkerPass cfg w).actions[j]? = some b := by
+  rw [checkerPass_action cfg w j b hb]
+  simp [processable, hbroken]
 
-/-- non-vacuity: a batch with a task-less (broken, skipped) action and two healthy ones -/
+/-- non-vacuity: a batch with an action whose definition was deleted (regression of the poisoned
+    batch), a task-less action and two healthy ones -/
 example :
     let cfg : Config := ⟨1, 1, 0, 0, 20, 5⟩
-    let w : World := { now := 100, tasks := [{ state := .RUNNING, updatedAt := 0 }, { state := .RUNNING, updatedAt := 0 }],
-                       actions := [{ state := .RUNNING, isSync := true, lastHeartbeat := 0, hasParent := true, task := some 0, updatedAt := 0 },
-                                        { state := .RUNNING, isSync := true, lastHeartbeat := 0, hasParent := false, task := none, updatedAt := 0 },
-                                        { state := .RUNNING, isSync := true, lastHeartbeat := 0, hasParent := true, task := some 1, updatedAt := 0 }] }
-    (checkerPass cfg w).actions.map (·.state) = [.ERROR, .RUNNING, .ERROR] ∧
-    (checkerPass cfg w).tasks.map (·.state) = [.ERROR, .ERROR] := by
+    let w : World := { now := 100, tasks := [{ state := .RUNNING, updatedAt := 0 }, { state := .RUNNING, updatedAt := 0 },
+                                             { state := .RUNNING, updatedAt := 0 }],
+                       actions := [{ state := .RUNNING, isSync := true, lastHeartbeat := 0, hasParent := true, defKnown := false,
+                                        task := some 0, updatedAt := 0 },
+                                   { state := .RUNNING, isSync := true, lastHeartbeat := 0, hasParent := true, task := some 1, updatedAt := 0 },
+                                   { state := .RUNNING, isSync := true, lastHeartbeat := 0, hasParent := false, task := none, updatedAt := 0 },
+                                   { state := .RUNNING, isSync := true, lastHeartbeat := 0, hasParent := true, task := some 2, updatedAt := 0 }] }
+    (w.actions.map broken = [true, false, false, false]) ∧
+    (checkerPass cfg w).actions.map (·.state) = [.RUNNING, .ERROR, .ERROR, .ERROR] ∧
+    (checkerPass cfg w).tasks.map (·.state) = [.RUNNING, .ERROR, .ERROR] := by
   decide
 
 /-! ## "A task left RUNNING although all its actions or sub-workflows have finished is completed by
